@@ -277,6 +277,8 @@ def run(ctx, P):
     from . import r2
     r2.family_arms_consistent(ctx, P, "C18g")
     r2.removed_iff_no_ptr_left(ctx, P, "C18h")
+    from . import r4
+    r4.auto_addr_follows_every_new_address(ctx, P, "C18i")
     clause_a(ctx, P)
     clause_b(ctx, P)
     clause_c(ctx, P)
